@@ -256,6 +256,10 @@ func runC04(c *Ctx) {
 				}
 				if nm, isSrc := isDBSource(call.Common()); isSrc && strings.HasSuffix(nm, ".Delete") {
 					deleted[valueDesc(call.Call.Args[0])] = true
+					// one Delete in a loop over a literal list of keys deletes each listed key
+					for _, kv := range p.rangeFieldValues(call.Call.Args[0]) {
+						deleted[valueDesc(kv)] = true
+					}
 				}
 			}
 		}
